@@ -19,6 +19,8 @@ type H264Cache struct {
 	gop      queue.Queue
 	sps      *rtp.Packet // 序列参数集包
 	pps      *rtp.Packet // 图像参数集包
+	hasKey   bool        // 是否已见过关键帧
+	keyTs    uint32      // 最近关键帧(图像)的 RTP 时间戳
 }
 
 // NewH264Cache 创建 H264 缓存
@@ -42,25 +44,34 @@ func (cache *H264Cache) CachePack(pack Pack) bool {
 	cache.l.Lock()
 	defer cache.l.Unlock()
 
-	if sps { // 新序列参数,重置图像参数和 GopCache
+	// 一个聚合包可能同时携带 SPS、PPS 和 IDR 片，各自都要记录
+	if sps {
 		cache.sps = rtppack
+	}
+	if pps {
+		cache.pps = rtppack
+	}
+	if (sps || pps) && !islice { // 纯参数集包
 		return false
 	}
 
-	if pps { // 新图像参数，重置 GopCahce
-		cache.pps = rtppack
-		return false
+	// 同一关键帧图像可能有多个 IDR 片(RTP 时间戳相同)，只有第一个片才是关键帧的起点
+	keyframe := false
+	if islice {
+		keyframe = !cache.hasKey || cache.keyTs != rtppack.Timestamp
+		cache.hasKey = true
+		cache.keyTs = rtppack.Timestamp
 	}
 
 	if cache.cacheGop { // 需要缓存 GOP
-		if islice { // 关键帧
+		if keyframe { // 关键帧
 			cache.gop.Reset()
 			cache.gop.Push(rtppack)
 		} else if cache.gop.Len() > 0 { // 必须关键帧作为cache的第一个包
 			cache.gop.Push(rtppack)
 		}
 	}
-	return islice
+	return keyframe
 }
 
 // Reset 重置H264Cache缓存
@@ -70,6 +81,7 @@ func (cache *H264Cache) Reset() {
 
 	cache.sps = nil
 	cache.pps = nil
+	cache.hasKey = false
 	cache.gop.Reset()
 }
 
@@ -79,19 +91,23 @@ func (cache *H264Cache) PushTo(q *queue.SyncQueue) int {
 	cache.l.RLock()
 	defer cache.l.RUnlock()
 
-	// 写参数包
-	if cache.sps != nil {
+	var packs []queue.Elem
+	if cache.cacheGop {
+		packs = cache.gop.Elems()
+	}
+
+	// 写参数包(同一个包只写一次；已在 GOP 中的包随 GOP 发送)
+	if cache.sps != nil && !containsPack(packs, cache.sps) {
 		q.Queue().Push(cache.sps)
 		bytes += cache.sps.Size()
 	}
-	if cache.pps != nil {
+	if cache.pps != nil && cache.pps != cache.sps && !containsPack(packs, cache.pps) {
 		q.Queue().Push(cache.pps)
 		bytes += cache.pps.Size()
 	}
 
 	// 如果必要，写 GopCache
 	if cache.cacheGop {
-		packs := cache.gop.Elems()
 		q.Queue().PushN(packs) // 启动阶段调用，无需加锁
 		for _, p := range packs {
 			bytes += p.(Pack).Size()
